@@ -431,7 +431,7 @@ def apply_op(w, op, rng_state=None):
     if k == "recreate":
         s, n = op["strategy"], op["n"]
         c = {"strategy": s, "n": n}
-        for key in ("alpha", "beta", "exp", "smooth", "a"):
+        for key in ("alpha", "beta", "exp", "smooth", "a", "supplier"):
             if key in op:
                 c[key] = op[key]
         kw = R.kwargs_of({**c, "a": op.get("a")})
@@ -452,7 +452,7 @@ def apply_op(w, op, rng_state=None):
             return line
         op["_line"] = f"wop recreateext {n} -"
         w.recreate_from_average(n, rfa_class=cls, **kw)
-        return f"wop recreateext {n} {fmt_list([frac(v) for v in w.y])}"
+        return f"wop recreateext {n} {fmt_list([frac(v) for v in np.asarray(w.y, dtype=float).ravel()])}"
     if k == "match":
         if op.get("fp_kind") == "sorted_repeat" and "fpi" not in op and len(x) >= 7:
             n_ = len(x)
